@@ -518,7 +518,7 @@ func c16R5(c *Ctx, rule string) {
 	actionF := p.Field(umRel, "StatusResponse", "Action")
 	// collect guards of every store Action=TERMINATE
 	seen := map[string]bool{}
-	for _, f := range us.AnonFuncs {
+	for _, f := range nestedAnon(us) {
 		allInstrs(f, func(i ssa.Instruction) {
 			st, ok := i.(*ssa.Store)
 			if !ok {
@@ -530,7 +530,7 @@ func c16R5(c *Ctx, rule string) {
 			if k, isK := intConst(st.Val); !isK || k != term {
 				return
 			}
-			for _, at := range AtomsAt(i) {
+			for _, at := range atomsWithCallSites(p, i, 0) {
 				s := at.String()
 				switch {
 				case at.Kind == "cmp" && at.Op == token.EQL && strings.Contains(s, "Bucket(") && strings.Contains(s, "nil"):
